@@ -88,8 +88,40 @@ def programs(tier):
     yield ("loop-side-waiter", side, {"count": 0}, dict(horizon=H_))
 
 
+def systematic(tier):
+    """step(c)->c emit s (cycle body), once(e0)->q emit t (runs once), gate(c)->step|END [optionally waiting s],
+    waiter(input in {c, e0, q}) waiting any non-empty subset of {s, t, c}, gated by the gate or free."""
+    import itertools
+
+    H_ = 7 if tier == "quick" else 9
+    i = 0
+    for gwait in ((), ("s",)):
+        for gopen in (True, False):
+            if gwait and not gopen:
+                continue  # a closed gate waiting on its own target's signal can never start (by construction)
+            for winp in ("c", "e0", "q"):
+                names = [n for n in ("s", "t", "c") if n != winp]
+                for r in (1, 2, 3):
+                    for wf in itertools.combinations(names, r):
+                        for gated in (False, True):
+                            i += 1
+                            tg = ["step", "wtr", "END"] if gated else ["step", "END"]
+                            nodes = [
+                                T.fn("step", ["c"], ["c"], emit=["s"], behav="env"),
+                                T.fn("once", ["e0"], ["q"], emit=["t"], behav="env"),
+                                T.route("gt", ["c"], tg, default_open=gopen, **({"wait_for": list(gwait)} if gwait else {})),
+                                T.fn("wtr", [winp], ["wo"], wait_for=list(wf), behav="env"),
+                            ]
+                            yield (f"sys-{i}", T.prog(nodes), {"c": 0, "e0": ["prov", "e0"]}, dict(horizon=H_, systematic=True))
+
+
+def all_programs(tier):
+    yield from programs(tier)
+    yield from systematic(tier)
+
+
 def shards(tier, seed):
-    return [(tier, seed, i) for i, _ in enumerate(programs(tier))]
+    return [(tier, seed, i) for i, _ in enumerate(all_programs(tier))]
 
 
 def _producers(prog):
@@ -298,7 +330,15 @@ def interrupt_resume_violations():
 def run_shard(shard):
     tier, seed, i = shard
     acc = Acc()
-    name, prog, inputs, meta = list(programs(tier))[i]
+    name, prog, inputs, meta = list(all_programs(tier))[i]
+    if meta.get("systematic"):
+        from ..dsl import build
+
+        try:
+            build(prog, H())
+        except Exception:  # noqa: BLE001
+            acc.counters["systematic_configurations_rejected_by_constructor"] += 1
+            return acc
     if i == 1:
         vs, ip = interrupt_resume_violations()
         acc.evaluations += 2
